@@ -193,9 +193,13 @@ func checkC13(p *Program, r *Report) {
 				okey := fmt.Sprintf("%s:accumulate:%s", key, name)
 				if controlEquivalent(add, sl.sub, loops) {
 					r.OK("R13.1", fmt.Sprintf("%s: `%s += … × Δt` executes exactly once per accepted sub-step", key, name))
+				} else if il := innermostLoop(loops, add.Block()); il != nil && il.Header == sl.loop.Header {
+					// conditional contribution within the accepted-step bookkeeping (e.g. spill): its pairing with the
+					// volume update is judged by R13.3/R13.4
+					r.OK("R13.1", fmt.Sprintf("%s: `%s += … × Δt` is a conditional contribution of the accepted step (paired by R13.3/R13.4)", key, name))
 				} else {
 					where := "on a different path than the accepted-step bookkeeping"
-					if il := innermostLoop(loops, add.Block()); il != sl.loop {
+					if il := innermostLoop(loops, add.Block()); il == nil || il.Header != sl.loop.Header {
 						where = "inside the trial/retry loop, i.e. once per rejected trial and never for the accepted one"
 					}
 					r.Fail("R13.1", okey, p.Pos(add.Pos()), fmt.Sprintf("`%s` accumulates a quantity × sub-step length %s: the reported total does not correspond to the sub-steps that advanced the volume", name, where))
